@@ -42,17 +42,50 @@ type c14PrefixCase struct {
 }
 
 // c14Len calls the Len of the named front end under the panic monitor.
+// c14Len asks a fresh object for Len. For one text in four (by hash) other methods of the same
+// object are called first and their results ignored (a schema is checked, a document is read to
+// its end or checked, an enum rule is checked): Len answers the same whatever happened before.
 func c14Len(kind, text string) (uint, lib.Obs) {
+	variant := mon.HashString(kind+text) % 8
 	return lib.SafeVal(func() (uint, error) {
 		switch kind {
 		case "schema":
-			return njs.New("schema", text).Len()
+			s := njs.New("schema", text)
+			switch variant {
+			case 1:
+				lib.Safe(s.Check)
+			case 2:
+				lib.SafeVal(s.UsedUserTypes)
+			}
+			return s.Len()
 		case "json":
-			return ljson.New("doc", text, ljson.AllowTrailingNonSpaceCharacters()).Len()
+			d := ljson.New("doc", text, ljson.AllowTrailingNonSpaceCharacters())
+			switch variant {
+			case 1:
+				lib.Safe(d.Check)
+			case 2:
+				lib.Safe(func() error {
+					for i := 0; i < 8*len(text)+64; i++ {
+						if _, err := d.NextLexeme(); err != nil {
+							return nil
+						}
+					}
+					return nil
+				})
+			}
+			return d.Len()
 		case "enum":
-			return enum.New("@enum", text).Len()
+			e := enum.New("@enum", text)
+			if variant == 1 {
+				lib.Safe(e.Check)
+			}
+			return e.Len()
 		case "regex":
-			return regex.New("@regex", text).Len()
+			x := regex.New("@regex", text)
+			if variant == 1 {
+				lib.Safe(x.Check)
+			}
+			return x.Len()
 		}
 		panic("harness: unknown kind " + kind)
 	})
@@ -89,6 +122,8 @@ var c14Trailers = []string{
 	"INFO", "404 any", "HEAD /x y", "Query", "SERVER @s", "PASTE @m", "Z",
 	"POST /a\n  Request\n{\n  \"a\": 1\n}", "TYPE @x\n{\n  \"id\": 1 // {min: 0}\n}\n", "200\n{}", "Body\n[]\n\n", "Path\n",
 	"{", "}", "]", "[1]", ", 1", ", \"x\": 1 // {optional: true}", ": 12 // {optional: true}", "\"q\"", "x", "é", "=", "*", "<a>", "@x", "| @x", "- item", "\x00",
+	// one foreign byte and then at once a line break, an annotation or a comment
+	",\nfoo", "x\n", "]\nGET /a", ",// foo\nbar", "x # c\n", ",/* c */ 1", "x\r\ny", "Z\nGET /a", "Z// note\nbar", "Z # c\n", "Z\r\n", "}\n\n",
 }
 
 // JSON has no annotations or comments: a slash or hash is as foreign as anything else.
